@@ -439,6 +439,7 @@ func (x *runner) rulesM(stream string, q nasType.QoSRules) []byte {
 	var out []byte
 	var err error
 	panicked, pv := hk.Catch(func() { out, err = q.MarshalBinary() })
+	x.r.Retain("nasType.QoSRules.MarshalBinary", term, out)
 	id := x.r.NextID()
 	x.r.AddCase(fmt.Sprintf("CRulesM %d %s %s", id, term, obsStr(panicked, false, err, hk.CoqBytes(out))), "QoSRules.MarshalBinary "+term)
 	wf := wfRules(q)
@@ -501,6 +502,7 @@ func (x *runner) descsM(stream string, q nasType.QoSFlowDescs) []byte {
 	var out []byte
 	var err error
 	panicked, pv := hk.Catch(func() { out, err = q.MarshalBinary() })
+	x.r.Retain("nasType.QoSFlowDescs.MarshalBinary", term, out)
 	id := x.r.NextID()
 	x.r.AddCase(fmt.Sprintf("CDescsM %d %s %s", id, term, obsStr(panicked, false, err, hk.CoqBytes(out))), "QoSFlowDescs.MarshalBinary "+term)
 	wf := wfDescs(q)
